@@ -294,6 +294,9 @@ func Alphabet() []AtomDef {
 
 // atomShape estimates into how many disjuncts of how many conditions an atom translates; used
 // only to keep trees whose negation is exponential by construction out of C03 (they are C14's).
+// AtomShape is atomShape for other drivers.
+func AtomShape(text string) (w, c int) { return atomShape(text) }
+
 func atomShape(text string) (w, c int) {
 	key := text[:strings.IndexAny(text, ":.")]
 	val := text[strings.IndexByte(text, ':')+1:]
